@@ -1,0 +1,38 @@
+//go:build verif
+
+package repository
+
+import (
+	"time"
+
+	"github.com/ngicks/mockable"
+)
+
+// VerifSetClock replaces the clock. Verification builds only.
+func (t *MutationHookTimer) VerifSetClock(c mockable.Clock) {
+	t.mu.Lock()
+	defer t.mu.Unlock()
+	t.clock = c
+}
+
+// VerifHookProbe is the internal state of MutationHookTimer as seen by VerifProbe.
+type VerifHookProbe struct {
+	CachedId          string
+	CachedScheduledAt time.Time
+	CachedPriority    int
+	TimerReset        bool
+	IsTimerStarted    bool
+}
+
+// VerifProbe returns the cache and the flags. Verification builds only.
+func (t *MutationHookTimer) VerifProbe() VerifHookProbe {
+	t.mu.Lock()
+	defer t.mu.Unlock()
+	return VerifHookProbe{
+		CachedId:          t.cachedMin.Id,
+		CachedScheduledAt: t.cachedMin.ScheduledAt,
+		CachedPriority:    t.cachedMin.Priority,
+		TimerReset:        t.timerReset,
+		IsTimerStarted:    t.isTimerStarted,
+	}
+}
